@@ -32,13 +32,15 @@ def canon(v, depth=0):
     if isinstance(v, (int, np.integer)):
         return int(v)
     if isinstance(v, (float, np.floating)):
-        return 'f:' + float(v).hex()
+        return 'f:nan' if v != v else 'f:' + float(v).hex()
     if isinstance(v, (complex, np.complexfloating)):
         return ['c', float(v.real).hex(), float(v.imag).hex()]
     if isinstance(v, np.ndarray):
         if v.dtype == object:
             return ['ndo', list(v.shape), [canon(x, depth + 1) for x in v.ravel().tolist()]]
         a = np.ascontiguousarray(v)
+        if a.dtype.kind in 'fc' and np.isnan(a).any():
+            a = np.where(np.isnan(a), np.nan, a)      # NaN sign/payload bits are not part of the result
         head = [canon(x) for x in a.ravel()[:3].tolist()]
         return ['nd', a.dtype.str, list(a.shape), hashlib.sha1(a.tobytes()).hexdigest(), head]
     if isinstance(v, (list, tuple)):
@@ -567,8 +569,9 @@ def batch_independence(optic, Hx, Hy, Px, Py, w, rng, subsets=3):
                     if a.shape != b.shape:
                         viol.append({'ray': j, 'group': g, 'why': 'shape'})
                         continue
-                    if a.tobytes() == b.tobytes():
-                        continue
+                    if np.where(np.isnan(a), 0.0, a).tobytes() == np.where(np.isnan(b), 0.0, b).tobytes() \
+                            and np.array_equal(np.isnan(a), np.isnan(b)):
+                        continue                 # bit-identical up to NaN sign/payload
                     fin = np.isfinite(a) & np.isfinite(b)
                     if not newton:
                         viol.append({'ray': j, 'group': g, 'why': 'closed-form lens: not bit-identical',
@@ -604,3 +607,181 @@ def gen_rays(rng, spec, n):
         Px.append(r * math.cos(t))
         Py.append(r * math.sin(t))
     return Hx, Hy, Px, Py
+
+
+# ----------------------------------------------------------------------------------------------
+# link to the Coq state machine (Model/M_C13.v, size instance of Lemmas/L_C13.v)
+# ----------------------------------------------------------------------------------------------
+def dist_count(name, n):
+    from optiland.distribution import create_distribution
+    d = create_distribution(name)
+    d.generate_points(n)
+    return int(np.size(d.x))
+
+
+def _site(count, tag=20):
+    return 1000 * int(count) + tag
+
+
+def opcode(optic, op):
+    """the Coq opcode (text) that models this call on this lens, or None when the call is not modelled"""
+    k = op['op']
+    nf_all = len(optic.fields.get_field_coords())
+    nw_all = len(optic.wavelengths.get_wavelengths())
+
+    def nf(o):
+        f = o.get('fields', 'all')
+        return nf_all if f == 'all' else len(f)
+
+    def nw(o):
+        w = o.get('wavelengths', 'all')
+        return nw_all if w == 'all' else (1 if w == 'primary' else len(w))
+
+    def odd(n):
+        return n + 1 if n % 2 == 0 else n
+
+    if k == 'trace':
+        d = op['dist']
+        c = d['n'] if isinstance(d, dict) and d['cls'] == 'random' else \
+            dist_count(d['cls'], d['n']) if isinstance(d, dict) else dist_count(d, op['num_rays'])
+        return f'Otrace {_site(c)}'
+    if k == 'trace_generic':
+        c = max(len(v['array']) if isinstance(v, dict) else 1 for v in (op['Hx'], op['Hy'], op['Px'], op['Py']))
+        return f'Otrace {_site(c)}'
+    if k == 'paraxial':
+        return {'f1': 'Of1', 'f2': 'Of2', 'F1': 'OF1', 'F2': 'OF2', 'P1': 'OP1', 'P2': 'OP2', 'N1': 'ON1', 'N2': 'ON2',
+                'EPL': 'OEPL', 'EPD': 'OEPD', 'XPL': 'OXPL', 'XPD': 'OXPD', 'FNO': 'OFNO',
+                'magnification': 'Omagnification', 'invariant': 'Oinvariant'}[op['q']]
+    if k == 'marginal_ray':
+        return 'Omarginal'
+    if k == 'chief_ray':
+        return 'Ochief'
+    if k == 'paraxial_trace':
+        c = len(op['Py']['array']) if isinstance(op['Py'], dict) else 1
+        return f'Optrace {_site(c)}'
+    if k == 'aberration':
+        return 'Oaberration'
+    if k in ('n', 'info'):
+        return 'Opure'
+    if k == 'wavefront':
+        cls = op['cls']
+        if cls == 'Wavefront':
+            return f'Owavefront {nf(op)} {nw(op)} {_site(1, 21)} {_site(dist_count(op.get("dist", "hexapolar"), op["num_rays"]), 22)}'
+        if cls == 'OPDFan':
+            return f'Owavefront {nf(op)} {nw(op)} {_site(1, 21)} {_site(dist_count("cross", op["num_rays"]), 22)}'
+        return f'Owavefront 1 1 {_site(1, 21)} {_site(dist_count("hexapolar", op["num_rays"]), 22)}'
+    if k == 'psf':
+        return f'Owavefront 1 1 {_site(1, 21)} {_site(dist_count("uniform", op["num_rays"]), 22)}'
+    if k == 'mtf':
+        if op['cls'] == 'FFTMTF':
+            return f'Offtmtf {nf(op)} {_site(1, 21)} {_site(dist_count("uniform", op["num_rays"]), 22)}'
+        return f'Ogeomtf {nf(op)} {_site(dist_count(op.get("dist", "uniform"), op["num_rays"]))}'
+    if k == 'analysis':
+        cls = op['cls']
+        if cls == 'SpotDiagram':
+            return f'Ospot {nf(op)} {nw(op)} {_site(dist_count(op.get("dist", "hexapolar"), op["num_rays"]))}'
+        if cls == 'EncircledEnergy':
+            return f'Ospot {nf(op)} 1 {_site(dist_count(op.get("dist", "hexapolar"), op["num_rays"]))}'
+        if cls == 'RayFan':
+            n = odd(op['num_points'])
+            return f'Orayfan {nf(op)} {nw(op)} {_site(n, 23)} {_site(n, 24)}'
+        if cls == 'YYbar':
+            return 'Oyybar'
+        if cls == 'Distortion':
+            return f'Odistortion {nw(op)} {_site(op["num_points"])}'
+        if cls == 'GridDistortion':
+            return f'Ogriddist {_site(1, 21)} {_site(op["num_points"] ** 2, 22)}'
+        if cls == 'FieldCurvature':
+            return f'Ofieldcurv {nw(op)} {_site(2 * op["num_points"])}'
+        if cls == 'RmsSpotSizeVsField':
+            return f'Ospot {op["num_fields"]} {nw(op)} {_site(dist_count("hexapolar", op["num_rays"]))}'
+        if cls == 'RmsWavefrontErrorVsField':
+            return f'Owavefront {op["num_fields"]} {nw(op)} {_site(1, 21)} {_site(dist_count("hexapolar", op["num_rays"]), 22)}'
+        if cls == 'PupilAberration':
+            n = odd(op['num_points'])
+            return f'Opupil {nf(op)} {nw(op)} {_site(1, 25)} {_site(n, 26)} {_site(n, 23)} {_site(n, 24)}'
+    return None
+
+
+def coq_cfg(optic):
+    ap = {'EPD': 0, 'imageFNO': 1, 'objectNA': 2}[optic.aperture.ap_type]
+    b = lambda v: 'true' if v else 'false'   # noqa
+    return (f'(mkCfg {ap} {b(optic.object_surface.is_infinite)} {b(optic.field_type == "object_height")} '
+            f'{b(optic.field_type == "angle")} {b(optic.obj_space_telecentric)})')
+
+
+def coq_table(t):
+    return '[' + '; '.join('[' + '; '.join(f'{v}%Z' for v in row) + ']' for row in t) + ']'
+
+
+def history_tables(rng, spec, length=24, heavy=True):
+    """run a random history on one lens object, recording the sizes of all record arrays after every call.
+    returns dict(cfg, stop, nsurf, steps=[(op, opcode, table)]) - truncated at the first call that raises"""
+    o = build(spec)
+    ops = [op for op in gen_ops(rng, spec, heavy)]
+    rng.shuffle(ops)
+    steps = []
+    for op in ops[:length]:
+        code = opcode(o, op)
+        if code is None:
+            continue
+        r = run_op(o, op)
+        if isinstance(r['result'], dict) and 'raised' in r['result']:
+            break
+        steps.append((op, code, record_sizes(o)))
+    return {'cfg': coq_cfg(o), 'stop': int(o.surface_group.stop_index), 'nsurf': int(o.surface_group.num_surfaces),
+            'steps': steps}
+
+
+def coq_history_case(name, h):
+    codes = '; '.join(f'({c})' if ' ' in c else c for _, c, _ in h['steps'])
+    obs = ';\n    '.join(coq_table(t) for _, _, t in h['steps'])
+    return (f'Definition l_{name} := size_lens {h["stop"]} {h["nsurf"]} {h["cfg"]}.\n'
+            f'Definition h_{name} : list opcode := [{codes}].\n'
+            f'Definition o_{name} : list (list (list Z)) := [\n    {obs}].\n'
+            f'Definition r_{name} := map (fun p => table_eqb (fst p) (snd p)) (combine (tables h_{name} l_{name}) o_{name}).\n')
+
+
+# ----------------------------------------------------------------------------------------------
+# static extraction: which parameters does a function write IN PLACE (aliasing writes)?
+# ----------------------------------------------------------------------------------------------
+def inplace_params(path, cls, func):
+    """names of the parameters of cls.func (file `path`) that are the target of an augmented assignment or of a
+    subscript store before being rebound: for an ndarray argument such a write goes to the caller's array"""
+    import ast
+    tree = ast.parse(open(path).read())
+    fn = None
+    for node in ast.walk(tree):
+        if isinstance(node, ast.ClassDef) and node.name == cls:
+            for b in node.body:
+                if isinstance(b, ast.FunctionDef) and b.name == func:
+                    fn = b
+    if fn is None:
+        raise KeyError(f'{cls}.{func} not found in {path}')
+    params = [a.arg for a in fn.args.args + fn.args.kwonlyargs if a.arg != 'self']
+    rebound, hits = set(), []
+
+    def visit(stmts):
+        for s in stmts:
+            if isinstance(s, ast.AugAssign):
+                t = s.target
+                if isinstance(t, ast.Name) and t.id in params and t.id not in rebound and t.id not in hits:
+                    hits.append(t.id)
+                if isinstance(t, ast.Subscript) and isinstance(t.value, ast.Name) and t.value.id in params \
+                        and t.value.id not in rebound and t.value.id not in hits:
+                    hits.append(t.value.id)
+            elif isinstance(s, ast.Assign):
+                for t in s.targets:
+                    for n in ast.walk(t):
+                        if isinstance(n, ast.Subscript) and isinstance(n.value, ast.Name) and n.value.id in params \
+                                and n.value.id not in rebound and n.value.id not in hits:
+                            hits.append(n.value.id)
+                    for n in ([t] if isinstance(t, ast.Name) else (t.elts if isinstance(t, (ast.Tuple, ast.List)) else [])):
+                        if isinstance(n, ast.Name):
+                            rebound.add(n.id)
+            for attr in ('body', 'orelse', 'finalbody'):
+                sub = getattr(s, attr, None)
+                if isinstance(sub, list) and sub and isinstance(sub[0], ast.stmt):
+                    visit(sub)
+    visit(fn.body)
+    return hits
